@@ -63,5 +63,5 @@ func VerifKeyCounts[T comparable](l TLocker[T], key T) (int, int, bool) {
 	if !ok {
 		return 0, 0, false
 	}
-	return w.readCount, w.writeCount, true
+	return int(w.readCount), int(w.writeCount), true
 }
